@@ -417,6 +417,10 @@ pub fn predict_with(plan: &ExPlan, ack_with_data_is_positive: bool) -> Result<Pr
         pos += frame.len();
         p.read_limit = pos as u64;
         if !info.in_alphabet(cf) {
+            if seqs::library_extends_reply_set(plan.seq, frame) {
+                p.error = Some("reply_set_extended_by_library");
+                return Ok(p);
+            }
             p.error = Some("foreign_control_field");
             return Ok(p);
         }
@@ -594,6 +598,11 @@ fn run_and_judge_with(plan: &ExPlan, want_trace: bool, ack_with_data_is_positive
         );
         return out;
     }
+    if pred.error == Some("reply_set_extended_by_library") {
+        // not judged beyond "no panic": see seqs::library_extends_reply_set
+        out.stats.hit("probe.reply_set_extended_by_library");
+        return out;
+    }
     if run.outcome != "done" {
         out.fail(
             "no_progress",
@@ -720,10 +729,11 @@ fn run_and_judge_with(plan: &ExPlan, want_trace: bool, ack_with_data_is_positive
         let (frame, end) = &pred.ok_frames[i];
         let dbg = it.res.as_ref().unwrap();
         let own = seqs::own_decodes(frame);
-        let inner_ok = seqs::split_variant(dbg)
-            .map(|(_, inner)| own.iter().any(|o| o == inner))
-            .unwrap_or(false);
-        if !inner_ok {
+        let verdict = seqs::item_matches_own_decode(dbg, frame);
+        if verdict.is_none() {
+            out.stats.hit("probe.item_not_comparable");
+        }
+        if verdict == Some(false) {
             out.fail(
                 "item_content",
                 sigbase.clone(),
